@@ -117,6 +117,7 @@ def proj(prop, lines):
                     out.append((tuple(l['item']), tuple(l['S'][:2]) if l['S'] else None, tuple(l['U'] or [])))
                 seen = True
     elif prop == 'C09':
+        out.append(tuple(l['S'][3] for l in lines if l['S'] and len(l['S']) > 3))
         n_items = 0
         n_actions = 0
         for l in lines:
@@ -129,7 +130,7 @@ def proj(prop, lines):
     elif prop == 'C10':
         for l in lines:
             out.append((tuple(tuple(a) for a in l['logs']), tuple(l['U'] or []), l['item'][0],
-                        (l['item'][1], l['item'][3]) if l['item'][0] == 'ok' else None))
+                        (l['item'][1], l['item'][3]) if l['item'][0] == 'ok' else None, l['S'][3] if l['S'] and len(l['S']) > 3 else None))
     return out
 
 
@@ -138,7 +139,7 @@ def map_states(lines, num2name):
     for l in lines:
         p = parse_line(l)
         if p['S']:
-            p['S'] = [num2name.get(int(p['S'][0]), '#' + p['S'][0]), num2name.get(int(p['S'][1]), '#' + p['S'][1]), p['S'][2]]
+            p['S'] = [num2name.get(int(p['S'][0]), '#' + p['S'][0]), num2name.get(int(p['S'][1]), '#' + p['S'][1])] + p['S'][2:]
         out.append(p)
     return out
 
